@@ -205,29 +205,13 @@ theorem naryCore_truth {ρ : String → K} (isAnd : Bool) {cs : List (Exp (Ext K
     · have hd := ((eval_nary_iff isAnd).1 (eval_of_Def (hdef _ h1))).1
       exact ⟨hd x h2, (TruthOK_mkNary ρ isAnd inner).1 (hT _ h1) x h2⟩
   have hagg := agg_flatten isAnd hdef
-  have hres : ∀ res, naryScan isAnd (naryFlatten isAnd cs) = some res →
+  have hres : ∀ res, naryStep isAnd (naryFlatten isAnd cs) = some res →
       agg ρ isAnd res = agg ρ isAnd cs ∧ ∀ x ∈ res, Def ρ x ∧ TruthOK ρ x := by
     intro res hs
-    have hfil := naryScan_some hs
-    constructor
-    · rw [hfil, agg_filter, hagg]
-      intro x hx hn
-      rcases isNum_cases x with h | ⟨v, rfl⟩
-      · rw [h] at hn; cases hn
-      · rw [tv_num (hF _ hx).1]
-        have hnone : ¬ naryScan isAnd (naryFlatten isAnd cs) = none := by rw [hs]; simp
-        rw [naryScan_none] at hnone
-        have : ¬ absorbing isAnd v = true := fun ha => hnone ⟨v, hx, ha⟩
-        rw [absorbing_iff] at this
-        cases isAnd <;> cases h : numTruthy v <;> simp_all
-    · intro x hx
-      rw [hfil, List.mem_filter] at hx
-      exact hF x hx.1
+    obtain ⟨h1, h2⟩ := naryStep_agg (fun x hx => (hF x hx).1) hs
+    exact ⟨by rw [h1, hagg], fun x hx => hF x (h2 x hx)⟩
   rcases naryCore_cases isAnd cs with ⟨h1, h2⟩ | ⟨h1, h2⟩ | ⟨e, h1, h2⟩ | ⟨res, h1, hl, h2⟩
-  · obtain ⟨v, hv, ha⟩ := naryScan_none.1 h1
-    rw [absorbing_iff] at ha
-    have ht : tv ρ (.num v) = !isAnd := by rw [tv_num (hF _ hv).1, ha]
-    rw [h2, ← hagg, agg_absorbing isAnd hv ht]
+  · rw [h2, ← hagg, naryStep_none_agg (fun x hx => (hF x hx).1) h1]
     cases isAnd
     · exact ⟨1, by simp [eval], truthy_one, TruthOK_num _ _⟩
     · exact ⟨0, by simp [eval], truthy_zero, TruthOK_num _ _⟩
